@@ -11,3 +11,4 @@ import J5V.Props.C04
 #print axioms J5V.Props.C04.C04_array_key_counterexample
 #print axioms J5V.Props.C04.C04_string_id62_pattern_counterexample
 #print axioms J5V.Props.C04.C04_custom_id62_key_lr_counterexample
+#print axioms J5V.Props.C04.C04_enum_decl_normal_form
